@@ -23,6 +23,10 @@ Require Import Cirbo.Proofs.WFBase Cirbo.Proofs.WFEmplace Cirbo.Proofs.WFStep Ci
 Require Import Cirbo.Generated.Converters Cirbo.Proofs.WFBench Cirbo.Proofs.ConvertersGen Cirbo.Proofs.ConvertersGenWF.
 Require Import Cirbo.Model.Eval Cirbo.Model.TseytinAlg.
 Require Import Cirbo.Generated.CircuitCore Cirbo.Proofs.CircuitCoreGen Cirbo.Proofs.CircuitCoreGen2.
+Require Import Cirbo.Model.Traverse Cirbo.Model.Bench Cirbo.Generated.CircuitAlgos Cirbo.Proofs.CircuitAlgosGen
+        Cirbo.Proofs.CircuitAlgosGen2 Cirbo.Proofs.CircuitAlgosGen3 Cirbo.Proofs.CircuitAlgosGen4
+        Cirbo.Proofs.CircuitAlgosGen5 Cirbo.Proofs.CircuitAlgosGen6 Cirbo.Proofs.CircuitAlgosGen7
+        Cirbo.Proofs.CircuitAlgosGenSum.
 
 Theorem C02_empty_wf : WF empty_circuit /\ inputs_nullary empty_circuit.
 Proof. exact Inv_empty. Qed.
@@ -123,6 +127,212 @@ Theorem C02_core_removal_regenerated_wf : forall c,
   WF c ->
   (forall l, gen_remove_gate c l = remove_gate c l) /\ (forall b, gen_remove_block c b = remove_block c b).
 Proof. exact core_removal_regenerated_wf. Qed.
+
+(* third group: the ALGORITHMIC methods.  Translator T10 (translator/t10_circuit_algos.py; grammar of T9 extended
+   by while loops on explicit fuel, generators, local dicts / sets, a second circuit argument, builders of a new
+   circuit, lambdas selected by a flag, comprehensions that can raise) regenerates top_sort, connect_circuit and
+   its five wrappers, __copy__, Block.into_circuit, evaluate_full_circuit, evaluate_circuit,
+   evaluate_circuit_outputs, evaluate, evaluate_at, get_truth_table (and the properties size, input_size) from
+   circuit.py as gen_<name> (Generated/CircuitAlgos.v) on every check.
+   - fuel: every `while` loop of the source is a Fixpoint on explicit fuel and the fuel is a parameter of the
+     generated function: a number for a loop of the function itself, a function of the circuit for a fuel
+     parameter of a function it calls (applied, at the call, to the circuit the callee runs on).  The statements
+     instantiate them with the fuel the model uses:
+       size_fuel c = S (size c) (top_sort, the loop of make_block_from_slice),
+       outputs_fuel c = eval_fuel c (outputs c), at_fuel c = 2 * (1 + sum_arity c) + 1 (evaluate_circuit),
+       traverse_fuel_of starts inverse c = traverse_fuel c (the start list) (_traverse_circuit);
+   - keys_ok c := NoDup (dkeys (gates c)): the gate map has no repeated key.  True of every Python dict and part
+     of WF; necessary for the association-list representation (C02_algorithms_corners, first part): top_sort
+     builds its indegree dict by a dict comprehension over the gate map, the model by a map;
+   - top_sort is a generator of Gate objects: gen_top_sort returns the (label, gate) pairs it yields; their
+     labels are the model's list and every pair is an entry of the gate map.  A consumer loop
+     (`for g in self.top_sort(...)`) runs over the complete list, as in the model;
+   - gates_for_block of connect_circuit is a Python set: the generated code keeps it as a duplicate-free list
+     and `list(gates_for_block)` lists its elements in gate-map order followed by the elements that are not
+     gates of self; the equality with the model (which canonicalises `blk`) includes the proof that every
+     element is a gate of self;
+   - evaluate_circuit: the source decides "all operands are assigned" by `cur_gate.label == queue_[-1]`, the
+     model by "nothing was pushed".  They differ only when a gate is its own unassigned operand: the source then
+     raises KeyError (or GateTypeNoOperatorError) where the model pushes until it runs out of fuel.
+     agree c g h := g = h \/ (h = Err OutOfFuel /\ (exists e, g = Err e) /\ some gate of c is its own operand)
+     (C02_algorithms_agree_spec); it implies equal normal returns and equal is_ok, and equality whenever no gate
+     is its own operand (C02_algorithms_agree_consequences), in particular on well-formed circuits
+     (C02_evaluators_regenerated_wf).  The corner is real (C02_algorithms_corners, second part);
+   - evaluate_at: output_index is a Python int, the model takes a natural number: stated for Z.of_nat i. *)
+Theorem C02_algorithms_regenerated :
+  (forall c, gen_size c = size c) /\
+  (forall c, gen_input_size c = length (inputs c)) /\
+  (forall c inv, keys_ok c -> (do r <- gen_top_sort (S (size c)) c inv; Ok (map fst r)) = top_sort inv c) /\
+  (forall c inv fuel r, gen_top_sort fuel c inv = Ok r -> Forall (fun p => get_gate c (fst p) = Ok (snd p)) r) /\
+  (forall c other tc oc right name ap, keys_ok other ->
+     gen_connect_circuit size_fuel c other tc oc right name ap = connect_circuit c other tc oc right name ap) /\
+  (forall c other tc name ap, keys_ok other ->
+     gen_connect_left size_fuel c other tc name ap = connect_left c other tc name ap) /\
+  (forall c other oc name ap, keys_ok other ->
+     gen_connect_right size_fuel c other oc name ap = connect_right c other oc name ap) /\
+  (forall c other name ap, keys_ok other ->
+     gen_connect_inputs size_fuel c other name ap = connect_inputs c other name ap) /\
+  (forall c other tc oc right name ap, keys_ok other ->
+     gen_extend_circuit size_fuel c other tc oc right name ap = extend_circuit c other tc oc right name ap) /\
+  (forall c other name ap, keys_ok other ->
+     gen_add_circuit size_fuel c other name ap = add_circuit c other name ap) /\
+  (forall c, keys_ok c -> gen___copy__ size_fuel c = copy_circuit c) /\
+  (forall b c, gen_Block_into_circuit b c = block_into_circuit c b) /\
+  (forall c a, keys_ok c -> gen_evaluate_full_circuit size_fuel c a = evaluate_full_circuit c a) /\
+  (forall c a outs fuel, agree c (gen_evaluate_circuit fuel c a outs) (evaluate_circuit_fuel fuel c a outs)) /\
+  (forall c a outs,
+     agree c (gen_evaluate_circuit (eval_fuel c (match outs with Some o => o | None => outputs c end)) c a outs)
+           (evaluate_circuit c a outs)) /\
+  (forall c a, agree c (gen_evaluate_circuit_outputs outputs_fuel c a) (evaluate_circuit_outputs c a)) /\
+  (forall c vals, agree c (gen_evaluate outputs_fuel c vals) (evaluate c vals)) /\
+  (forall c vals i,
+     agree c (gen_evaluate_at at_fuel c vals (Z.of_nat i)) (evaluate_at c vals i)) /\
+  (forall c, agree c (gen_get_truth_table outputs_fuel c) (get_truth_table c)).
+Proof. exact algorithms_regenerated. Qed.
+
+Theorem C02_algorithms_agree_spec : forall A (c : circuit) (g h : res A),
+  agree c g h <->
+  (g = h \/ (h = Err OutOfFuel /\ (exists e, g = Err e) /\
+             exists l gt, dget (gates c) l = Some gt /\ In l (gops gt))).
+Proof. exact agree_spec. Qed.
+
+Theorem C02_algorithms_agree_consequences : forall A (c : circuit) (g h : res A), agree c g h ->
+  (forall x, g = Ok x <-> h = Ok x) /\ is_ok g = is_ok h /\
+  (h <> Err OutOfFuel -> g = h) /\
+  ((forall l gt, dget (gates c) l = Some gt -> ~ In l (gops gt)) -> g = h).
+Proof. exact agree_consequences. Qed.
+
+(* on a well-formed circuit (unique keys, acyclic) every regenerated evaluator EQUALS the model *)
+Theorem C02_evaluators_regenerated_wf : forall c, WF c ->
+  (forall a, gen_evaluate_full_circuit size_fuel c a = evaluate_full_circuit c a) /\
+  (forall a outs,
+     gen_evaluate_circuit (eval_fuel c (match outs with Some o => o | None => outputs c end)) c a outs
+     = evaluate_circuit c a outs) /\
+  (forall a, gen_evaluate_circuit_outputs outputs_fuel c a = evaluate_circuit_outputs c a) /\
+  (forall vals, gen_evaluate outputs_fuel c vals = evaluate c vals) /\
+  (forall vals i, gen_evaluate_at at_fuel c vals (Z.of_nat i) = evaluate_at c vals i) /\
+  gen_get_truth_table outputs_fuel c = get_truth_table c.
+Proof. exact evaluators_regenerated_wf. Qed.
+
+(* keys_ok follows from the invariant of C02_step_wf *)
+Theorem C02_algorithms_keys_ok_wf : forall c, WF c -> keys_ok c.
+Proof. exact WF_keys_ok. Qed.
+
+(* both side conditions are necessary *)
+Theorem C02_algorithms_corners :
+  ((do r <- gen_top_sort 3 dup_keys_circuit true; Ok (map fst r)) <> top_sort true dup_keys_circuit) /\
+  (gen_evaluate_circuit (eval_fuel self_loop_circuit ["g"]) self_loop_circuit [] None = Err PyKeyError /\
+   evaluate_circuit self_loop_circuit [] None = Err OutOfFuel).
+Proof. exact algorithms_corners. Qed.
+
+(* fourth group (T10): make_block_from_slice, get_gates_truth_table, format_circuit, the driver loop of into_bench,
+   _traverse_circuit with its wrappers dfs / bfs, and validation.check_circuit_has_no_cycles.
+   - make_block_from_slice collects the gates in a Python set and starts its work list with `list(gates)`, whose
+     order is the hash order of the strings.  The regenerated function takes the gate-map order, the model the
+     order of the `outputs` argument; the loop itself is the same function (Proofs/CircuitAlgosGen4.v
+     gen_slice_loop_eq).  The order is irrelevant for the result (the loop computes the least set containing the
+     start gates and closed under "operand that is not a block input"; the stored gate list is canonical):
+     slice_agree g h := the circuit returned by g is h's, or both raise GateDoesntExistError / CreateBlockError
+     (possibly a different one of the two: C02_slice_corner).  The second clause: the Block returned by the
+     source is the one stored under its name;
+   - into_bench: the rules are regenerated by T6 (generated_convert_gate); the driver loop over a snapshot of
+     the gate map, handing one uuid4().hex value to every rule that needs one, is regenerated here and equals the
+     driver of Proofs/ConvertersGen.v, hence (C14_rules_regenerated) has the normal returns of the model and
+     equals it outside the LT / LEQ one-operand corner;
+   - _traverse_circuit: the five hooks are observed as the event log of the model (a call of a hook = an event,
+     a yield = EvYield); on_discover_hook may raise depending on the label and state of the discovered gate
+     (`abort`); keys_ok is needed only with topsort_unvisited (it calls top_sort). *)
+Theorem C02_algorithms_regenerated_2 :
+  (forall c name ins outs, keys_ok c ->
+     slice_agree (gen_make_block_from_slice (S (size c)) c name ins outs) (make_block_from_slice c name ins outs)) /\
+  (forall fuel c name ins outs c' b,
+     gen_make_block_from_slice fuel c name ins outs = Ok (c', b) -> get_block c' name = Ok b) /\
+  (forall c, keys_ok c -> gen_get_gates_truth_table size_fuel c = get_gates_truth_table c) /\
+  (forall c, gen_format_circuit c = Ok (format_circuit c)) /\
+  (forall c fresh, gen_into_bench c fresh = generated_into_bench c fresh) /\
+  (forall c fresh c', gen_into_bench c fresh = Ok c' <-> into_bench c fresh = Ok c') /\
+  (forall c fresh,
+     (forall x g, In (x, g) (gates c) -> gtyp g = LT \/ gtyp g = LEQ -> length (gops g) <> 1%nat) ->
+     gen_into_bench c fresh = into_bench c fresh) /\
+  (forall c mode starts inverse tsu abort, (tsu = true -> keys_ok c) ->
+     gen__traverse_circuit (traverse_fuel c (start_queue c starts inverse)) size_fuel c mode starts inverse tsu abort
+     = traverse mode inverse c starts tsu abort) /\
+  (forall c starts inverse tsu abort, (tsu = true -> keys_ok c) ->
+     gen_dfs (traverse_fuel_of starts inverse) size_fuel c starts inverse tsu abort
+     = traverse DFS inverse c starts tsu abort) /\
+  (forall c starts inverse tsu abort, (tsu = true -> keys_ok c) ->
+     gen_bfs (traverse_fuel_of starts inverse) size_fuel c starts inverse tsu abort
+     = traverse BFS inverse c starts tsu abort) /\
+  (forall c starts,
+     gen_check_circuit_has_no_cycles (traverse_fuel_of starts false) size_fuel c starts
+     = check_circuit_has_no_cycles_from c starts).
+Proof. exact algorithms_regenerated_2. Qed.
+
+Theorem C02_slice_agree_spec : forall (g : res (circuit * block)) (h : res circuit),
+  slice_agree g h <->
+  ((do p <- g; Ok (fst p)) = h \/
+   (exists e1 e2, g = Err e1 /\ h = Err e2 /\
+      (e1 = GateDoesntExistError \/ e1 = CreateBlockError) /\ (e2 = GateDoesntExistError \/ e2 = CreateBlockError))).
+Proof. exact slice_agree_spec. Qed.
+
+Theorem C02_slice_agree_consequences : forall (g : res (circuit * block)) (h : res circuit), slice_agree g h ->
+  (forall c', (exists b, g = Ok (c', b)) <-> h = Ok c') /\ is_ok g = is_ok h.
+Proof. exact slice_agree_consequences. Qed.
+
+Theorem C02_slice_corner :
+  gen_make_block_from_slice 4 slice_corner "B" [] ["a"; "b"] = Err CreateBlockError /\
+  make_block_from_slice slice_corner "B" [] ["a"; "b"] = Err GateDoesntExistError.
+Proof. exact slice_corner_real. Qed.
+
+(* replace_subcircuit (T10).  inputs_mapping / outputs_mapping are Python dicts: association lists with unique keys;
+   uuid.uuid4().hex is the next element of the stream `fresh` (the model takes the one value it needs);
+   the four fuel parameters are those of make_block_from_slice, of top_sort on the new subcircuit, and of the final
+   cycle check (all_gates_fuel c = traverse_fuel c (all gate labels), and the unused top_sort fuel of dfs), each
+   applied to the state the callee runs on, as the model does.  The method calls make_block_from_slice, so the same
+   corner is inherited: rs_agree g h := g = h, or both raise GateDoesntExistError / CreateBlockError (possibly a
+   different one of the two).  WF c is used for: unique gate keys after the renamings (slice), unique block keys
+   (_remove_block). *)
+Theorem C02_replace_subcircuit_regenerated : forall c sub imap omap f rest,
+  WF c -> keys_ok sub -> NoDup (dkeys imap) -> NoDup (dkeys omap) ->
+  rs_agree (gen_replace_subcircuit size_fuel size_fuel all_gates_fuel size_fuel c sub imap omap (f :: rest))
+           (replace_subcircuit c sub imap omap f).
+Proof. exact replace_subcircuit_regenerated. Qed.
+
+Theorem C02_rs_agree_spec : forall g h : res circuit,
+  rs_agree g h <->
+  (g = h \/
+   (exists e1 e2, g = Err e1 /\ h = Err e2 /\
+      (e1 = GateDoesntExistError \/ e1 = CreateBlockError) /\ (e2 = GateDoesntExistError \/ e2 = CreateBlockError))).
+Proof. exact rs_agree_spec. Qed.
+
+Theorem C02_rs_agree_consequences : forall g h : res circuit, rs_agree g h ->
+  (forall c', g = Ok c' <-> h = Ok c') /\ is_ok g = is_ok h.
+Proof. exact rs_agree_consequences. Qed.
+
+(* non-vacuity of the hypotheses of the regeneration theorems: a well-formed circuit, a replacement whose mappings
+   have unique keys; the regenerated replace_subcircuit returns, and returns the model's circuit *)
+Definition C02_ex_base : circuit :=
+  mkCircuit ["a"; "b"] ["h"]
+            [("a", mkGate INPUT []); ("b", mkGate INPUT []); ("g", mkGate AND ["a"; "b"]); ("h", mkGate NOT ["g"])]
+            [("a", ["g"]); ("b", ["g"]); ("g", ["h"])] [].
+Definition C02_ex_sub : circuit :=
+  mkCircuit ["x"; "y"] ["z"]
+            [("x", mkGate INPUT []); ("y", mkGate INPUT []); ("z", mkGate OR ["x"; "y"])]
+            [("x", ["z"]); ("y", ["z"])] [].
+
+Example C02_regeneration_example :
+  WF C02_ex_base /\ keys_ok C02_ex_sub /\
+  exists c', gen_replace_subcircuit size_fuel size_fuel all_gates_fuel size_fuel C02_ex_base C02_ex_sub
+               [("a", "x"); ("b", "y")] [("g", "z")] ["u1"] = Ok c' /\
+             replace_subcircuit C02_ex_base C02_ex_sub [("a", "x"); ("b", "y")] [("g", "z")] "u1" = Ok c' /\
+             size c' = 4 /\
+             gen_dfs (traverse_fuel_of None false) size_fuel c' None false true no_abort
+             = traverse DFS false c' None true no_abort.
+Proof.
+  split; [apply C02_wfb_sound; vm_compute; reflexivity|].
+  split; [apply nodupb_NoDup; vm_compute; reflexivity|].
+  eexists. split; [vm_compute; reflexivity|]. split; [vm_compute; reflexivity|]. split; vm_compute; reflexivity.
+Qed.
 
 (* non-vacuity: a history through 11 kinds of calls (a left connection of another circuit, the
    bench conversion of an LT gate, block removal, ...) whose side conditions hold, which runs to
